@@ -8,17 +8,17 @@ BASES_THOROUGH = BASES_QUICK + ["h/a", "h/a/x/v1/g", "a__g:h/a/x/v1/*", "h/s/q1/
 
 def x_obligations(tier):
     o = []
-    T = 170 if tier == "quick" else 1200
+    T = 170 if tier == "quick" else 600
     bases = BASES_QUICK if tier == "quick" else BASES_THOROUGH
     n1 = 2 if tier == "quick" else 3
     for bi, base in enumerate(bases):
         for ki, k in enumerate(KEYS):
             if tier == "quick" and (ki + bi) % 3 != 0 and k not in ("version", "ext"):
                 continue
-            for entry in (["string", "get_with"] if tier == "thorough" or (ki + bi) % 2 == 0 else ["string"]):
+            for entry in (["string", "get_with"] if (ki + bi) % 2 == 0 else ["string"]):
                 o.append(Obl(f"C04-apply1[{base},{k},{entry},len<={n1}]", M, "apply1", env={"VF_BASE": base, "VF_KI": str(ki), "VF_N": str(n1), "VF_ENTRY": entry},
                              timeout=T, family="C04-apply", bound=f"base {base}, key {k}, every value v, 1<=len(v)<={n1}, no URL metacharacters / whitespace"))
-    pairs = [(4, 6), (2, 4), (1, 3), (6, 7), (0, 1)] if tier == "quick" else [(a, b) for a in range(8) for b in range(8) if a != b and (a + b) % 2 == 1]
+    pairs = [(4, 6), (2, 4), (1, 3), (6, 7), (0, 1)] if tier == "quick" else [(a, b) for a in range(8) for b in range(8) if a != b and (a + 3 * b) % 5 == 1]
     for base in bases[:3] if tier == "quick" else bases[:6]:
         for (a, b) in pairs:
             o.append(Obl(f"C04-apply2[{base},{KEYS[a]}&{KEYS[b]},len<=1]", M, "apply2", env={"VF_BASE": base, "VF_KI": str(a), "VF_KI2": str(b), "VF_N": "1"}, timeout=T,
